@@ -109,6 +109,8 @@ pub struct PollSys {
     pub timeout: u64,
     /// the exact timeout in microseconds (a timeout need not be a whole number of milliseconds)
     pub timeout_us: u64,
+    /// nanoseconds on top of `timeout_us` (a timeout need not be a whole number of microseconds either)
+    pub timeout_sub_ns: u64,
     /// length of one clock tick in nanoseconds: 1 ms normally; the explorations of timeouts that are
     /// not whole milliseconds use a finer tick, so that polls fall between whole milliseconds and
     /// exactly on the timeout. `now`, `timeout`, `cap`, ages and pauses are all in ticks.
@@ -187,6 +189,7 @@ impl PollSys {
             ch,
             timeout,
             timeout_us: timeout.saturating_mul(1000),
+            timeout_sub_ns: 0,
             tick_ns: 1_000_000,
             advance: 0,
             exotic: None,
@@ -211,7 +214,7 @@ impl PollSys {
     pub fn new_scanner(&self) -> PollingParameterNumberMessageScanner {
         match self.exotic {
             Some((d, _)) => PollingParameterNumberMessageScanner::new(d),
-            None => PollingParameterNumberMessageScanner::new(Duration::from_micros(self.timeout_us)),
+            None => PollingParameterNumberMessageScanner::new(Duration::from_nanos(self.timeout_ns())),
         }
     }
 
@@ -288,6 +291,23 @@ impl PollSys {
         self
     }
 
+    /// the exact timeout in nanoseconds
+    pub fn timeout_ns(&self) -> u64 {
+        self.timeout_us.saturating_mul(1000).saturating_add(self.timeout_sub_ns)
+    }
+
+    /// A timeout given in nanoseconds, on a clock whose tick is `tick_ns` nanoseconds.
+    pub fn with_timeout_ns(mut self, ns: u64, tick_ns: u64) -> Self {
+        assert!(self.exotic.is_none());
+        self.timeout_us = ns / 1000;
+        self.timeout_sub_ns = ns % 1000;
+        self.tick_ns = tick_ns;
+        self.timeout = (ns + tick_ns - 1) / tick_ns;
+        self.cap = cap_for(self.timeout, 1);
+        self.pauses = vec![(1 << 20) + 100];
+        self
+    }
+
     /// A finer clock: one tick = `tick_us` microseconds. Timeout, CAP and pauses are re-expressed in
     /// ticks; the wrap-around and whole-second pauses keep their meaning only on the millisecond
     /// clock, so only the plain long pause stays.
@@ -315,7 +335,7 @@ impl PollSys {
 
     /// has the timeout passed after `age` ticks?
     fn expired(&self, age: u64) -> bool {
-        (age as u128) * (self.tick_ns as u128) >= (self.timeout_us as u128) * 1000
+        (age as u128) * (self.tick_ns as u128) >= self.timeout_ns() as u128
     }
 
     fn v13(&self, rule: &str, cls: &str, detail: impl FnOnce() -> String) -> Violation {
@@ -332,6 +352,8 @@ impl PollSys {
             label.to_string()
         } else if self.timeout >= T_INF {
             "inf".to_string()
+        } else if self.timeout_sub_ns != 0 {
+            format!("{}ns", self.timeout_ns())
         } else if self.timeout_us % 1000 != 0 {
             format!("{}us", self.timeout_us)
         } else {
@@ -760,7 +782,7 @@ impl System for PollSys {
     fn rust_preamble(&self) -> String {
         match self.exotic {
             Some((d, _)) => format!("// build with RUSTFLAGS=\"--cfg helgoboss_midi_verif\" for the mock clock\n    let mut scanner = helgoboss_midi::PollingParameterNumberMessageScanner::new(std::time::Duration::new({}, {}));\n    let mut clock = 0u64;", d.as_secs(), d.subsec_nanos()),
-            None => format!("// build with RUSTFLAGS=\"--cfg helgoboss_midi_verif\" for the mock clock\n    let mut scanner = helgoboss_midi::PollingParameterNumberMessageScanner::new(std::time::Duration::from_micros({}));\n    let mut clock = 0u64;", self.timeout_us),
+            None => format!("// build with RUSTFLAGS=\"--cfg helgoboss_midi_verif\" for the mock clock\n    let mut scanner = helgoboss_midi::PollingParameterNumberMessageScanner::new(std::time::Duration::from_nanos({}));\n    let mut clock = 0u64;", self.timeout_ns()),
         }
     }
     fn rust_line(&self, a: &PoAct) -> String {
@@ -1040,6 +1062,27 @@ fn run_observer(chk: &xs::Check, tier: xs::Tier, pid: &'static str, report: PRep
     }
 }
 
+/// Further timeout classes, each on a clock whose tick puts polls just before, exactly on and just
+/// after the timeout (first channel, small byte domain, no concretisation probes - these classes
+/// are about the time arithmetic, not the data path):
+///  * 500 ns on 250 ns ticks and 1500 ns on 500 ns ticks: not a whole number of microseconds
+///    (a timeout rounded to microseconds, or a remainder compared in microseconds, shows);
+///  * 1 s on 250 ms ticks: `as_secs() > 0`, where whole-second shortcuts start to apply.
+fn run_timeout_classes(chk: &xs::Check, pid: &'static str, report: PReport) {
+    use xs::{engine, Limits};
+    let mut classes: Vec<(u64, u64)> = vec![(1_000_000_000, 250_000_000)];
+    if report.c13 {
+        classes.push((500, 250));
+        classes.push((1500, 500));
+    }
+    for (ns, tick_ns) in classes {
+        let mut sys = PollSys::new(pid, 0, 1, 1, &[0, 1, 127], false, report).with_timeout_ns(ns, tick_ns);
+        sys.storms = vec![(256, false)];
+        let out = xs::explore(&sys, &Limits::default());
+        engine::record(chk, &sys, &out, None);
+    }
+}
+
 /// Timeouts so long that they never expire, each chosen so that one plausible lossy conversion
 /// aliases it to ZERO: 2^32 ms (as u32 milliseconds), 2^55 s (as u64 nanoseconds), 2^58 s (as u64
 /// microseconds), 2^61 s (as u64 milliseconds), plus Duration::MAX.
@@ -1064,9 +1107,10 @@ fn run_exotic(chk: &xs::Check, pid: &'static str, report: PReport) {
 }
 
 pub fn run_c13(chk: &xs::Check, tier: xs::Tier) {
-    chk.rule("reachability fixpoint of the real PollingParameterNumberMessageScanner under a mock clock x history observer, for timeouts {0, 0.5 ms, 1.5 ms, 2 ms, 2^40 ms} and (small byte domain) five astronomically long timeouts that alias to zero under a truncating conversion (2^32 ms, 2^55 s, 2^58 s, 2^61 s, Duration::MAX); actions: 8 contributing controllers x byte domain, two non-contributing messages, poll, reset, 1 ms tick (so pending bytes are polled at every age below, at and above the timeout). Rules judged on every transition: R1 poll returns only a pending MSB whose age >= timeout, and exactly it; R2 an expired pending MSB is returned; R3 an early poll changes nothing; R4 each feed re-executed 1, T, T+1 and CAP ms later returns the same; R5 an unpaired LSB polled after the timeout is dropped");
+    chk.rule("reachability fixpoint of the real PollingParameterNumberMessageScanner under a mock clock x history observer, for timeouts {0, 0.5 ms, 1.5 ms, 2 ms, 2^40 ms}, the further classes {500 ns, 1500 ns, 1 s} on clocks with 250 ns / 500 ns / 250 ms ticks, and (small byte domain) five astronomically long timeouts that alias to zero under a truncating conversion (2^32 ms, 2^55 s, 2^58 s, 2^61 s, Duration::MAX); actions: 8 contributing controllers x byte domain, two non-contributing messages, poll, reset, 1 ms tick (so pending bytes are polled at every age below, at and above the timeout). Rules judged on every transition: R1 poll returns only a pending MSB whose age >= timeout, and exactly it; R2 an expired pending MSB is returned; R3 an early poll changes nothing; R4 each feed re-executed 1, T, T+1 and CAP ms later returns the same; R5 an unpaired LSB polled after the timeout is dropped");
     run_observer(chk, tier, "C13", PReport { c13: true, ..Default::default() });
     run_exotic(chk, "C13", PReport { c13: true, ..Default::default() });
+    run_timeout_classes(chk, "C13", PReport { c13: true, ..Default::default() });
     chk.sample(serde_json::json!({"history": ["cc 99 =1", "cc 98 =0", "cc 6 =127", "tick", "poll (age 1 < timeout 2) -> None, state unchanged", "tick", "poll (age 2) -> NRPN-7bit(128, 127)", "poll -> None"]}));
 }
 
@@ -1074,5 +1118,6 @@ pub fn run_c14(chk: &xs::Check, tier: xs::Tier) {
     chk.rule("same product as C13; rules judged on every transition: P1 channel of the triggering call; P2 nothing before a complete number, number/kind from the latest number bytes before the call; P3 inc/dec only from the current 96/97 message; P4 a 7-bit data entry carries the most recent controller-6 byte fed before the call, never reported/used before; P5 a 14-bit carries the most recent controller-6 and -38 bytes up to and including the current message; P6 a pending controller-6 byte is reported by the next contributing message or the first poll after the timeout; P7 two messages only for inc/dec after a pending MSB, data entry first");
     run_observer(chk, tier, "C14", PReport { c14: true, c13: false, ..Default::default() });
     run_exotic(chk, "C14", PReport { c14: true, c13: false, ..Default::default() });
+    run_timeout_classes(chk, "C14", PReport { c14: true, c13: false, ..Default::default() });
     chk.sample(serde_json::json!({"history": ["cc 101 =0", "cc 100 =1", "cc 6 =5", "cc 99 =7 -> RPN-7bit(number 1, value 5) (flush with the OLD number and kind)", "cc 6 =9", "cc 97 =1 -> [NRPN-7bit(897, 9), NRPN-decrement(897, 1)]"]}));
 }
